@@ -35,8 +35,17 @@ NOTES = {
  "C15-w6m2": "missed at first: infer's candidate accounts were ASCII only. Added Expenses:Büro and Expenses:Café to the training accounts; then caught (output-unparseable).",
  "C18-w6m2": "missed at first: C18 never ran a second command after a crash. Added crash-then-rerun (every crash image with leftovers is the starting point of an undisturbed run of the same command, and of a run after the journal was shortened; the result must equal that of a run without leftovers); simfs.CreateTemp now skips existing names like os.CreateTemp; then caught (rerun-after-crash-corrupts:edited).",
  "C20-w6m2": "caught by C06 at once; C20's own run first ended with exit 2 because the change produces two map keys that render alike (same instant, different time.Location), whose relative order is Go's own, so the replay did not reproduce. Such violations are now confirmed with up to 12 replays and dropped with a NOTE if they never reproduce; C20 then reports it (wrong-weight).",
+ "C18-w7m2": "missed at first: C18's journals never had CRLF line ends. messy() now writes 20% of them with CRLF; then caught (torn-file:mixed).",
+ "C19-w7m2": "missed at first: the change bounds the loader's group at 32 goroutines, which deadlocks only with more than 32 files each waiting to start an include. WideLayout now also draws very wide trees (root with 33-48 children that include further files) in C05, C06 and C19; then caught (deadlock).",
+ "C03-w7m2": "missed at first: price days were drawn per commodity, so a day rarely had several quotes and a quote never repeated its known value. Quotes now share days across commodities and 30% repeat the previous value; then caught by C03 (stale value after an unchanged last quote).",
+ "C09-w7m1": "missed at first: every journal was dated 2019 or later. One in 25 round-trip cases is now dated before the year 1000; then caught (printed journal rejected).",
+ "C14-w7m2": "missed at first: every generated account had at least two segments. 4% of the accounts are now top-level ones ('Assets', 'Liabilities', ...); then caught by C14, C03 and C16 (panic).",
+ "C05-w7m2": "C05 itself stays silent (the change is wrong in every order, so the verdict does not depend on order); caught by C04, whose oracle is the reference checker.",
 }
 DROPPED = [
+ "C04 (wave 7, first change): Builder.Build skips the day sort while days 'arrive in ascending order'; the same idea as C05-m2 (caught by C04, C05, C19).",
+ "C19 (wave 7, first change) and C06 (wave 7, second change): lost re-check in commodity.Registry.Get; the same change as C05-m1 (both caught).",
+ "C03 (wave 7, first change): Normalize marks commodities settled at dequeue; the same change as C12-m1 (caught by C12).",
  "C04 (wave 2, second change): Builder.Build skips the day sort; the same idea as C05-m2 and no longer applicable after fix 281999b.",
  "C06 (wave 3, first change): lost re-check in commodity.Registry.Get; the same change as C05-m1.",
  "C04 (wave 4, second change): lost re-check in commodity.Registry.Get; the same change as C05-m1.",
